@@ -49,6 +49,12 @@ def run(run, ix, tier):
     iv_rules.check_composition(run, ix, True)
     # the real helper that mpci_cos / mpci_sin rely on
     iv_rules.check_composition(run, ix, False)
+    # C-R15: shape discipline (raw mpf / interval / rectangle) of every kernel argument
+    from ..shape import check_shapes
+    run.rule('C-R15', floor=300, desc='kernel arguments have the shape (mpf / interval / rectangle) the kernel takes')
+    n = check_shapes(run, ix, 'C-R15', ('mpmath/libmp/libmpi.py', CTXIV))
+    if n < 300:
+        raise AnalysisError('C-R15 judged only %d kernel arguments' % n)
 
 
 def check_binary_op(run, ix):
